@@ -196,6 +196,14 @@ def _derive(src, dst, var, fam):
         for i, rid in enumerate(rows):
             if i % var["drop_obs"] == 0:
                 cur.execute("DELETE FROM observations WHERE id = ?", (rid,))
+    # stored observations one of whose components is EXACTLY 0.0 (due north, on the horizon, no range rate): a legal
+    # measurement that must reach its target's filter like any other (seed C19/14: rows tested by truthiness)
+    if var.get("zero_obs"):
+        rows = [r for r in cur.execute("SELECT id, range_rate_km_p_sec FROM observations ORDER BY id")]
+        for i, (rid, rr) in enumerate(rows):
+            if i % var["zero_obs"] == 0:
+                col = ("azimuth_rad", "elevation_rad", "range_rate_km_p_sec" if rr is not None else "azimuth_rad")[(i // var["zero_obs"]) % 3]
+                cur.execute(f"UPDATE observations SET {col} = 0.0 WHERE id = ?", (rid,))
     # observation rows stored TWICE (same sensor, target, epoch, values; a new primary key): e.g. a run imported twice
     if var.get("dup_obs"):
         cols = [c[1] for c in cur.execute("PRAGMA table_info(observations)").fetchall() if c[1] != "id"]
@@ -511,6 +519,8 @@ def make_families(ctx: Ctx, rng):
         variants.append({"name": "extras_gap", "mode": "ts", "extras": 2, "extras_gap": 2})
         # observation rows stored twice: the duplicate is dropped, the run goes on
         variants.append({"name": "dup_obs_tso", "mode": "tso", "dup_obs": 2})
+        variants.append({"name": "zero_obs_o", "mode": "o", "zero_obs": 2})
+        variants.append({"name": "zero_obs_tso", "mode": "tso", "zero_obs": 1})
         variants.append({"name": "dup_obs3_t_extras", "mode": "t", "dup_obs": 3, "extras": 1})
         # importer files that hold only the tables an importer reads (the last one not even an observation table)
         variants.append({"name": "minimal_ts", "mode": "ts", "drop_tables": "unused"})
